@@ -209,7 +209,7 @@ package memory
 //@   requires wfChecker(ckr)
 //@   requires[stored-triples-well-formed] forall u string :: {trpls[u]} has(trpls, u) && trpls[u] != nil ==> trpls[u].p != nil
 //@   ensures[fresh] result != nil && fresh(result)
-//@   ensures[exactly-the-matching-ones] forall u string :: {has(result, u)} has(result, u) <==> (has(trpls, u) && trpls[u] != nil && Pmatch(ckr.op, trpls[u].p) && InWindow(ckr.o, trpls[u].p))
+//@   ensures[exactly-the-matching-ones] forall u string :: {has(result, u)} {has(trpls, u)} has(result, u) <==> (has(trpls, u) && trpls[u] != nil && Pmatch(ckr.op, trpls[u].p) && InWindow(ckr.o, trpls[u].p))
 //@   ensures[same-triples] forall u string :: {result[u]} has(result, u) ==> result[u] == trpls[u]
 //@   loop 0 invariant[exactly-the-matching-visited] forall u string :: {has(selectedTrpls, u)} has(selectedTrpls, u) <==> ($vis[u] && has(trpls, u) && trpls[u] != nil && Pmatch(ckr.op, trpls[u].p) && InWindow(ckr.o, trpls[u].p))
 //@   loop 0 invariant[same-triples] forall u string :: {selectedTrpls[u]} has(selectedTrpls, u) ==> selectedTrpls[u] == trpls[u]
@@ -260,7 +260,7 @@ package memory
 //@   ensures[unknown-operation-is-an-error] (filterOptions.Operation != filter.Latest && filterOptions.Operation != filter.IsImmutable && filterOptions.Operation != filter.IsTemporal) ==> result1 != nil
 //@   ensures[subset] result1 == nil ==> forall k string :: {has(result0, k)} has(result0, k) ==> exists u string :: {hexu(u)} k == hexu(u) && has(memoryTriples, u) && result0[k] == memoryTriples[u] && qmatch(pQuery, memoryTriples[u])
 //@   ensures[latest-are-maximal] result1 == nil && filterOptions.Operation == filter.Latest ==> forall k string, u string :: {result0[k], memoryTriples[u]} has(result0, k) && has(memoryTriples, u) && cand(pQuery, memoryTriples[u], filterOptions.Field) && grp(memoryTriples[u], filterOptions.Field) == grp(result0[k], filterOptions.Field) ==> at(memoryTriples[u], filterOptions.Field) <= at(result0[k], filterOptions.Field)
-//@   ensures[every-latest-is-returned] result1 == nil && filterOptions.Operation == filter.Latest ==> forall u string :: {memoryTriples[u]} has(memoryTriples, u) && cand(pQuery, memoryTriples[u], filterOptions.Field) && (forall w string :: {memoryTriples[w]} has(memoryTriples, w) && cand(pQuery, memoryTriples[w], filterOptions.Field) && grp(memoryTriples[w], filterOptions.Field) == grp(memoryTriples[u], filterOptions.Field) ==> at(memoryTriples[w], filterOptions.Field) <= at(memoryTriples[u], filterOptions.Field)) ==> has(result0, hexu(u)) && result0[hexu(u)] == memoryTriples[u]
+//@   ensures[every-latest-is-returned] result1 == nil && filterOptions.Operation == filter.Latest ==> forall u string :: {memoryTriples[u]} {has(memoryTriples, u)} has(memoryTriples, u) && cand(pQuery, memoryTriples[u], filterOptions.Field) && (forall w string :: {memoryTriples[w]} has(memoryTriples, w) && cand(pQuery, memoryTriples[w], filterOptions.Field) && grp(memoryTriples[w], filterOptions.Field) == grp(memoryTriples[u], filterOptions.Field) ==> at(memoryTriples[w], filterOptions.Field) <= at(memoryTriples[u], filterOptions.Field)) ==> has(result0, hexu(u)) && result0[hexu(u)] == memoryTriples[u]
 //@   ensures[isImmutable] result1 == nil && filterOptions.Operation == filter.IsImmutable ==> forall u string :: {has(result0, hexu(u))} has(result0, hexu(u)) <==> (has(memoryTriples, u) && qmatch(pQuery, memoryTriples[u]) && fpred(memoryTriples[u], filterOptions.Field) != nil && fpred(memoryTriples[u], filterOptions.Field).anchor == nil)
 //@   ensures[isTemporal] result1 == nil && filterOptions.Operation == filter.IsTemporal ==> forall u string :: {has(result0, hexu(u))} has(result0, hexu(u)) <==> (has(memoryTriples, u) && qmatch(pQuery, memoryTriples[u]) && fpred(memoryTriples[u], filterOptions.Field) != nil && fpred(memoryTriples[u], filterOptions.Field).anchor != nil)
 
@@ -347,6 +347,13 @@ package memory
 //@   nowrite[C07] lo.FilterOptions
 //@   ensures[sound] forall j int :: {objs.#out[j]} old(objs.#len) <= j && j < objs.#len ==> exists u string :: {m.idx[u]} has(m.idx, u) && su(m.idx[u].s) == su(s) && ppu(m.idx[u].p) == ppu(p) && Pmatch(p, m.idx[u].p) && InWindow(lo, m.idx[u].p) && objs.#out[j] == m.idx[u].o
 //@   ensures[complete-when-unpaged-and-unfiltered] result == nil && lo.MaxElements == 0 && !lo.LatestAnchor && old(lo.FilterOptions) == nil ==> forall u string :: {m.idx[u]} has(m.idx, u) && su(m.idx[u].s) == su(s) && ppu(m.idx[u].p) == ppu(p) && Pmatch(p, m.idx[u].p) && InWindow(lo, m.idx[u].p) ==> exists j int :: {objs.#out[j]} old(objs.#len) <= j && j < objs.#len && (exists v string :: {m.idx[v]} has(m.idx, v) && tstr(m.idx[v]) == tstr(m.idx[u]) && objs.#out[j] == m.idx[v].o)
+//@   atcall executeFilter assert[candidates-come-from-the-bucket] forall u string :: {has(memoryTriples, u)} has(memoryTriples, u) ==> has(m.idxSP, spIdx) && has(m.idxSP[spIdx], u)
+//@   atcall executeFilter assert[candidates-are-stored-triples] forall u string :: {has(memoryTriples, u)} has(memoryTriples, u) ==> has(m.idx, u) && memoryTriples[u] == m.idx[u]
+//@   atcall executeFilter assert[candidates-match-in-window] forall u string :: {has(memoryTriples, u)} has(memoryTriples, u) ==> su(m.idx[u].s) == su(s) && ppu(m.idx[u].p) == ppu(p) && Pmatch(p, m.idx[u].p) && InWindow(lo, m.idx[u].p)
+//@   atcall executeFilter assert[matches-are-in-the-bucket] forall u string :: {m.idx[u]} has(m.idx, u) && su(m.idx[u].s) == su(s) && ppu(m.idx[u].p) == ppu(p) && Pmatch(p, m.idx[u].p) ==> has(m.idxSP, spIdx) && has(m.idxSP[spIdx], u) && m.idxSP[spIdx][u] == m.idx[u]
+//@   atcall executeFilter assert[matches-in-window-are-candidates] forall u string :: {m.idx[u]} has(m.idx, u) && su(m.idx[u].s) == su(s) && ppu(m.idx[u].p) == ppu(p) && Pmatch(p, m.idx[u].p) && InWindow(lo, m.idx[u].p) ==> has(memoryTriples, u) && memoryTriples[u] == m.idx[u]
+//@   atcall SortByString assert[every-latest-match-is-selected] lo.LatestAnchor ==> forall u string :: {m.idx[u]} has(m.idx, u) && su(m.idx[u].s) == su(s) && ppu(m.idx[u].p) == ppu(p) && Pmatch(p, m.idx[u].p) && qmatch(p, m.idx[u]) && m.idx[u].p.anchor != nil && InWindow(lo, m.idx[u].p) && (forall w string :: {m.idx[w]} has(m.idx, w) && su(m.idx[w].s) == su(s) && ppu(m.idx[w].p) == ppu(p) && Pmatch(p, m.idx[w].p) && qmatch(p, m.idx[w]) && m.idx[w].p.anchor != nil && InWindow(lo, m.idx[w].p) && hexu(ppu(m.idx[w].p)) == hexu(ppu(m.idx[u].p)) ==> inst(m.idx[w].p.anchor) <= inst(m.idx[u].p.anchor)) ==> exists k string :: {selectedTrpls[k]} has(selectedTrpls, k) && selectedTrpls[k] == m.idx[u]
+//@   ensures[complete-latest-when-unpaged] result == nil && lo.MaxElements == 0 && lo.LatestAnchor ==> forall u string :: {m.idx[u]} has(m.idx, u) && su(m.idx[u].s) == su(s) && ppu(m.idx[u].p) == ppu(p) && Pmatch(p, m.idx[u].p) && qmatch(p, m.idx[u]) && m.idx[u].p.anchor != nil && InWindow(lo, m.idx[u].p) && (forall w string :: {m.idx[w]} has(m.idx, w) && su(m.idx[w].s) == su(s) && ppu(m.idx[w].p) == ppu(p) && Pmatch(p, m.idx[w].p) && qmatch(p, m.idx[w]) && m.idx[w].p.anchor != nil && InWindow(lo, m.idx[w].p) && hexu(ppu(m.idx[w].p)) == hexu(ppu(m.idx[u].p)) ==> inst(m.idx[w].p.anchor) <= inst(m.idx[u].p.anchor)) ==> exists j int :: {objs.#out[j]} old(objs.#len) <= j && j < objs.#len && (exists v string :: {m.idx[v]} has(m.idx, v) && tstr(m.idx[v]) == tstr(m.idx[u]) && objs.#out[j] == m.idx[v].o)
 //@   loop 0 invariant[state] m.#lock_rwmu == 1 && objs != nil && objs.#closed == 0 && objs.#len >= old(objs.#len) && ckr != nil && st != nil && fresh(st) && fresh(ckr)
 //@   loop 0 invariant[sound] forall j int :: {objs.#out[j]} old(objs.#len) <= j && j < objs.#len ==> exists u string :: {m.idx[u]} has(m.idx, u) && su(m.idx[u].s) == su(s) && ppu(m.idx[u].p) == ppu(p) && Pmatch(p, m.idx[u].p) && InWindow(lo, m.idx[u].p) && objs.#out[j] == m.idx[u].o
 //@   loop 0 invariant[complete-so-far] old(lo.MaxElements) == 0 ==> !ckr.max && ckr.paddedPageSize <= 0 && objs.#len == old(objs.#len) + $i && (forall q int :: {strObs[q]} 0 <= q && q < $i ==> objs.#out[old(objs.#len) + q] == st[strObs[q]].o)
@@ -367,6 +374,13 @@ package memory
 //@   nowrite[C07] lo.FilterOptions
 //@   ensures[sound] forall j int :: {subjs.#out[j]} old(subjs.#len) <= j && j < subjs.#len ==> exists u string :: {m.idx[u]} has(m.idx, u) && ppu(m.idx[u].p) == ppu(p) && ou(m.idx[u].o) == ou(o) && Pmatch(p, m.idx[u].p) && InWindow(lo, m.idx[u].p) && subjs.#out[j] == m.idx[u].s
 //@   ensures[complete-when-unpaged-and-unfiltered] result == nil && lo.MaxElements == 0 && !lo.LatestAnchor && old(lo.FilterOptions) == nil ==> forall u string :: {m.idx[u]} has(m.idx, u) && ppu(m.idx[u].p) == ppu(p) && ou(m.idx[u].o) == ou(o) && Pmatch(p, m.idx[u].p) && InWindow(lo, m.idx[u].p) ==> exists j int :: {subjs.#out[j]} old(subjs.#len) <= j && j < subjs.#len && (exists v string :: {m.idx[v]} has(m.idx, v) && tstr(m.idx[v]) == tstr(m.idx[u]) && subjs.#out[j] == m.idx[v].s)
+//@   atcall executeFilter assert[candidates-come-from-the-bucket] forall u string :: {has(memoryTriples, u)} has(memoryTriples, u) ==> has(m.idxPO, poIdx) && has(m.idxPO[poIdx], u)
+//@   atcall executeFilter assert[candidates-are-stored-triples] forall u string :: {has(memoryTriples, u)} has(memoryTriples, u) ==> has(m.idx, u) && memoryTriples[u] == m.idx[u]
+//@   atcall executeFilter assert[candidates-match-in-window] forall u string :: {has(memoryTriples, u)} has(memoryTriples, u) ==> ppu(m.idx[u].p) == ppu(p) && ou(m.idx[u].o) == ou(o) && Pmatch(p, m.idx[u].p) && InWindow(lo, m.idx[u].p)
+//@   atcall executeFilter assert[matches-are-in-the-bucket] forall u string :: {m.idx[u]} has(m.idx, u) && ppu(m.idx[u].p) == ppu(p) && ou(m.idx[u].o) == ou(o) && Pmatch(p, m.idx[u].p) ==> has(m.idxPO, poIdx) && has(m.idxPO[poIdx], u) && m.idxPO[poIdx][u] == m.idx[u]
+//@   atcall executeFilter assert[matches-in-window-are-candidates] forall u string :: {m.idx[u]} has(m.idx, u) && ppu(m.idx[u].p) == ppu(p) && ou(m.idx[u].o) == ou(o) && Pmatch(p, m.idx[u].p) && InWindow(lo, m.idx[u].p) ==> has(memoryTriples, u) && memoryTriples[u] == m.idx[u]
+//@   atcall SortByString assert[every-latest-match-is-selected] lo.LatestAnchor ==> forall u string :: {m.idx[u]} has(m.idx, u) && ppu(m.idx[u].p) == ppu(p) && ou(m.idx[u].o) == ou(o) && Pmatch(p, m.idx[u].p) && qmatch(p, m.idx[u]) && m.idx[u].p.anchor != nil && InWindow(lo, m.idx[u].p) && (forall w string :: {m.idx[w]} has(m.idx, w) && ppu(m.idx[w].p) == ppu(p) && ou(m.idx[w].o) == ou(o) && Pmatch(p, m.idx[w].p) && qmatch(p, m.idx[w]) && m.idx[w].p.anchor != nil && InWindow(lo, m.idx[w].p) && hexu(ppu(m.idx[w].p)) == hexu(ppu(m.idx[u].p)) ==> inst(m.idx[w].p.anchor) <= inst(m.idx[u].p.anchor)) ==> exists k string :: {selectedTrpls[k]} has(selectedTrpls, k) && selectedTrpls[k] == m.idx[u]
+//@   ensures[complete-latest-when-unpaged] result == nil && lo.MaxElements == 0 && lo.LatestAnchor ==> forall u string :: {m.idx[u]} has(m.idx, u) && ppu(m.idx[u].p) == ppu(p) && ou(m.idx[u].o) == ou(o) && Pmatch(p, m.idx[u].p) && qmatch(p, m.idx[u]) && m.idx[u].p.anchor != nil && InWindow(lo, m.idx[u].p) && (forall w string :: {m.idx[w]} has(m.idx, w) && ppu(m.idx[w].p) == ppu(p) && ou(m.idx[w].o) == ou(o) && Pmatch(p, m.idx[w].p) && qmatch(p, m.idx[w]) && m.idx[w].p.anchor != nil && InWindow(lo, m.idx[w].p) && hexu(ppu(m.idx[w].p)) == hexu(ppu(m.idx[u].p)) ==> inst(m.idx[w].p.anchor) <= inst(m.idx[u].p.anchor)) ==> exists j int :: {subjs.#out[j]} old(subjs.#len) <= j && j < subjs.#len && (exists v string :: {m.idx[v]} has(m.idx, v) && tstr(m.idx[v]) == tstr(m.idx[u]) && subjs.#out[j] == m.idx[v].s)
 //@   loop 0 invariant[state] m.#lock_rwmu == 1 && subjs != nil && subjs.#closed == 0 && subjs.#len >= old(subjs.#len) && ckr != nil && st != nil && fresh(st) && fresh(ckr)
 //@   loop 0 invariant[sound] forall j int :: {subjs.#out[j]} old(subjs.#len) <= j && j < subjs.#len ==> exists u string :: {m.idx[u]} has(m.idx, u) && ppu(m.idx[u].p) == ppu(p) && ou(m.idx[u].o) == ou(o) && Pmatch(p, m.idx[u].p) && InWindow(lo, m.idx[u].p) && subjs.#out[j] == m.idx[u].s
 //@   loop 0 invariant[complete-so-far] old(lo.MaxElements) == 0 ==> !ckr.max && ckr.paddedPageSize <= 0 && subjs.#len == old(subjs.#len) + $i && (forall q int :: {strSubs[q]} 0 <= q && q < $i ==> subjs.#out[old(subjs.#len) + q] == st[strSubs[q]].s)
@@ -387,6 +401,13 @@ package memory
 //@   nowrite[C07] lo.FilterOptions
 //@   ensures[sound] forall j int :: {prds.#out[j]} old(prds.#len) <= j && j < prds.#len ==> exists u string :: {m.idx[u]} has(m.idx, u) && su(m.idx[u].s) == su(s) && ou(m.idx[u].o) == ou(o) && true && InWindow(lo, m.idx[u].p) && prds.#out[j] == m.idx[u].p
 //@   ensures[complete-when-unpaged-and-unfiltered] result == nil && lo.MaxElements == 0 && !lo.LatestAnchor && old(lo.FilterOptions) == nil ==> forall u string :: {m.idx[u]} has(m.idx, u) && su(m.idx[u].s) == su(s) && ou(m.idx[u].o) == ou(o) && true && InWindow(lo, m.idx[u].p) ==> exists j int :: {prds.#out[j]} old(prds.#len) <= j && j < prds.#len && (exists v string :: {m.idx[v]} has(m.idx, v) && tstr(m.idx[v]) == tstr(m.idx[u]) && prds.#out[j] == m.idx[v].p)
+//@   atcall executeFilter assert[candidates-come-from-the-bucket] forall u string :: {has(memoryTriples, u)} has(memoryTriples, u) ==> has(m.idxSO, soIdx) && has(m.idxSO[soIdx], u)
+//@   atcall executeFilter assert[candidates-are-stored-triples] forall u string :: {has(memoryTriples, u)} has(memoryTriples, u) ==> has(m.idx, u) && memoryTriples[u] == m.idx[u]
+//@   atcall executeFilter assert[candidates-match-in-window] forall u string :: {has(memoryTriples, u)} has(memoryTriples, u) ==> su(m.idx[u].s) == su(s) && ou(m.idx[u].o) == ou(o) && true && InWindow(lo, m.idx[u].p)
+//@   atcall executeFilter assert[matches-are-in-the-bucket] forall u string :: {m.idx[u]} has(m.idx, u) && su(m.idx[u].s) == su(s) && ou(m.idx[u].o) == ou(o) && true ==> has(m.idxSO, soIdx) && has(m.idxSO[soIdx], u) && m.idxSO[soIdx][u] == m.idx[u]
+//@   atcall executeFilter assert[matches-in-window-are-candidates] forall u string :: {m.idx[u]} has(m.idx, u) && su(m.idx[u].s) == su(s) && ou(m.idx[u].o) == ou(o) && true && InWindow(lo, m.idx[u].p) ==> has(memoryTriples, u) && memoryTriples[u] == m.idx[u]
+//@   atcall SortByString assert[every-latest-match-is-selected] lo.LatestAnchor ==> forall u string :: {m.idx[u]} has(m.idx, u) && su(m.idx[u].s) == su(s) && ou(m.idx[u].o) == ou(o) && true && m.idx[u].p.anchor != nil && InWindow(lo, m.idx[u].p) && (forall w string :: {m.idx[w]} has(m.idx, w) && su(m.idx[w].s) == su(s) && ou(m.idx[w].o) == ou(o) && true && m.idx[w].p.anchor != nil && InWindow(lo, m.idx[w].p) && hexu(ppu(m.idx[w].p)) == hexu(ppu(m.idx[u].p)) ==> inst(m.idx[w].p.anchor) <= inst(m.idx[u].p.anchor)) ==> exists k string :: {selectedTrpls[k]} has(selectedTrpls, k) && selectedTrpls[k] == m.idx[u]
+//@   ensures[complete-latest-when-unpaged] result == nil && lo.MaxElements == 0 && lo.LatestAnchor ==> forall u string :: {m.idx[u]} has(m.idx, u) && su(m.idx[u].s) == su(s) && ou(m.idx[u].o) == ou(o) && true && m.idx[u].p.anchor != nil && InWindow(lo, m.idx[u].p) && (forall w string :: {m.idx[w]} has(m.idx, w) && su(m.idx[w].s) == su(s) && ou(m.idx[w].o) == ou(o) && true && m.idx[w].p.anchor != nil && InWindow(lo, m.idx[w].p) && hexu(ppu(m.idx[w].p)) == hexu(ppu(m.idx[u].p)) ==> inst(m.idx[w].p.anchor) <= inst(m.idx[u].p.anchor)) ==> exists j int :: {prds.#out[j]} old(prds.#len) <= j && j < prds.#len && (exists v string :: {m.idx[v]} has(m.idx, v) && tstr(m.idx[v]) == tstr(m.idx[u]) && prds.#out[j] == m.idx[v].p)
 //@   loop 0 invariant[state] m.#lock_rwmu == 1 && prds != nil && prds.#closed == 0 && prds.#len >= old(prds.#len) && ckr != nil && st != nil && fresh(st) && fresh(ckr)
 //@   loop 0 invariant[sound] forall j int :: {prds.#out[j]} old(prds.#len) <= j && j < prds.#len ==> exists u string :: {m.idx[u]} has(m.idx, u) && su(m.idx[u].s) == su(s) && ou(m.idx[u].o) == ou(o) && true && InWindow(lo, m.idx[u].p) && prds.#out[j] == m.idx[u].p
 //@   loop 0 invariant[complete-so-far] old(lo.MaxElements) == 0 ==> !ckr.max && ckr.paddedPageSize <= 0 && prds.#len == old(prds.#len) + $i && (forall q int :: {strPrds[q]} 0 <= q && q < $i ==> prds.#out[old(prds.#len) + q] == st[strPrds[q]].p)
@@ -407,6 +428,13 @@ package memory
 //@   nowrite[C07] lo.FilterOptions
 //@   ensures[sound] forall j int :: {prds.#out[j]} old(prds.#len) <= j && j < prds.#len ==> exists u string :: {m.idx[u]} has(m.idx, u) && su(m.idx[u].s) == su(s) && true && InWindow(lo, m.idx[u].p) && prds.#out[j] == m.idx[u].p
 //@   ensures[complete-when-unpaged-and-unfiltered] result == nil && lo.MaxElements == 0 && !lo.LatestAnchor && old(lo.FilterOptions) == nil ==> forall u string :: {m.idx[u]} has(m.idx, u) && su(m.idx[u].s) == su(s) && true && InWindow(lo, m.idx[u].p) ==> exists j int :: {prds.#out[j]} old(prds.#len) <= j && j < prds.#len && (exists v string :: {m.idx[v]} has(m.idx, v) && tstr(m.idx[v]) == tstr(m.idx[u]) && prds.#out[j] == m.idx[v].p)
+//@   atcall executeFilter assert[candidates-come-from-the-bucket] forall u string :: {has(memoryTriples, u)} has(memoryTriples, u) ==> has(m.idxS, sUUID) && has(m.idxS[sUUID], u)
+//@   atcall executeFilter assert[candidates-are-stored-triples] forall u string :: {has(memoryTriples, u)} has(memoryTriples, u) ==> has(m.idx, u) && memoryTriples[u] == m.idx[u]
+//@   atcall executeFilter assert[candidates-match-in-window] forall u string :: {has(memoryTriples, u)} has(memoryTriples, u) ==> su(m.idx[u].s) == su(s) && true && InWindow(lo, m.idx[u].p)
+//@   atcall executeFilter assert[matches-are-in-the-bucket] forall u string :: {m.idx[u]} has(m.idx, u) && su(m.idx[u].s) == su(s) && true ==> has(m.idxS, sUUID) && has(m.idxS[sUUID], u) && m.idxS[sUUID][u] == m.idx[u]
+//@   atcall executeFilter assert[matches-in-window-are-candidates] forall u string :: {m.idx[u]} has(m.idx, u) && su(m.idx[u].s) == su(s) && true && InWindow(lo, m.idx[u].p) ==> has(memoryTriples, u) && memoryTriples[u] == m.idx[u]
+//@   atcall SortByString assert[every-latest-match-is-selected] lo.LatestAnchor ==> forall u string :: {m.idx[u]} has(m.idx, u) && su(m.idx[u].s) == su(s) && true && m.idx[u].p.anchor != nil && InWindow(lo, m.idx[u].p) && (forall w string :: {m.idx[w]} has(m.idx, w) && su(m.idx[w].s) == su(s) && true && m.idx[w].p.anchor != nil && InWindow(lo, m.idx[w].p) && hexu(ppu(m.idx[w].p)) == hexu(ppu(m.idx[u].p)) ==> inst(m.idx[w].p.anchor) <= inst(m.idx[u].p.anchor)) ==> exists k string :: {selectedTrpls[k]} has(selectedTrpls, k) && selectedTrpls[k] == m.idx[u]
+//@   ensures[complete-latest-when-unpaged] result == nil && lo.MaxElements == 0 && lo.LatestAnchor ==> forall u string :: {m.idx[u]} has(m.idx, u) && su(m.idx[u].s) == su(s) && true && m.idx[u].p.anchor != nil && InWindow(lo, m.idx[u].p) && (forall w string :: {m.idx[w]} has(m.idx, w) && su(m.idx[w].s) == su(s) && true && m.idx[w].p.anchor != nil && InWindow(lo, m.idx[w].p) && hexu(ppu(m.idx[w].p)) == hexu(ppu(m.idx[u].p)) ==> inst(m.idx[w].p.anchor) <= inst(m.idx[u].p.anchor)) ==> exists j int :: {prds.#out[j]} old(prds.#len) <= j && j < prds.#len && (exists v string :: {m.idx[v]} has(m.idx, v) && tstr(m.idx[v]) == tstr(m.idx[u]) && prds.#out[j] == m.idx[v].p)
 //@   loop 0 invariant[state] m.#lock_rwmu == 1 && prds != nil && prds.#closed == 0 && prds.#len >= old(prds.#len) && ckr != nil && st != nil && fresh(st) && fresh(ckr)
 //@   loop 0 invariant[sound] forall j int :: {prds.#out[j]} old(prds.#len) <= j && j < prds.#len ==> exists u string :: {m.idx[u]} has(m.idx, u) && su(m.idx[u].s) == su(s) && true && InWindow(lo, m.idx[u].p) && prds.#out[j] == m.idx[u].p
 //@   loop 0 invariant[complete-so-far] old(lo.MaxElements) == 0 ==> !ckr.max && ckr.paddedPageSize <= 0 && prds.#len == old(prds.#len) + $i && (forall q int :: {strPrds[q]} 0 <= q && q < $i ==> prds.#out[old(prds.#len) + q] == st[strPrds[q]].p)
@@ -427,6 +455,13 @@ package memory
 //@   nowrite[C07] lo.FilterOptions
 //@   ensures[sound] forall j int :: {prds.#out[j]} old(prds.#len) <= j && j < prds.#len ==> exists u string :: {m.idx[u]} has(m.idx, u) && ou(m.idx[u].o) == ou(o) && true && InWindow(lo, m.idx[u].p) && prds.#out[j] == m.idx[u].p
 //@   ensures[complete-when-unpaged-and-unfiltered] result == nil && lo.MaxElements == 0 && !lo.LatestAnchor && old(lo.FilterOptions) == nil ==> forall u string :: {m.idx[u]} has(m.idx, u) && ou(m.idx[u].o) == ou(o) && true && InWindow(lo, m.idx[u].p) ==> exists j int :: {prds.#out[j]} old(prds.#len) <= j && j < prds.#len && (exists v string :: {m.idx[v]} has(m.idx, v) && tstr(m.idx[v]) == tstr(m.idx[u]) && prds.#out[j] == m.idx[v].p)
+//@   atcall executeFilter assert[candidates-come-from-the-bucket] forall u string :: {has(memoryTriples, u)} has(memoryTriples, u) ==> has(m.idxO, oUUID) && has(m.idxO[oUUID], u)
+//@   atcall executeFilter assert[candidates-are-stored-triples] forall u string :: {has(memoryTriples, u)} has(memoryTriples, u) ==> has(m.idx, u) && memoryTriples[u] == m.idx[u]
+//@   atcall executeFilter assert[candidates-match-in-window] forall u string :: {has(memoryTriples, u)} has(memoryTriples, u) ==> ou(m.idx[u].o) == ou(o) && true && InWindow(lo, m.idx[u].p)
+//@   atcall executeFilter assert[matches-are-in-the-bucket] forall u string :: {m.idx[u]} has(m.idx, u) && ou(m.idx[u].o) == ou(o) && true ==> has(m.idxO, oUUID) && has(m.idxO[oUUID], u) && m.idxO[oUUID][u] == m.idx[u]
+//@   atcall executeFilter assert[matches-in-window-are-candidates] forall u string :: {m.idx[u]} has(m.idx, u) && ou(m.idx[u].o) == ou(o) && true && InWindow(lo, m.idx[u].p) ==> has(memoryTriples, u) && memoryTriples[u] == m.idx[u]
+//@   atcall SortByString assert[every-latest-match-is-selected] lo.LatestAnchor ==> forall u string :: {m.idx[u]} has(m.idx, u) && ou(m.idx[u].o) == ou(o) && true && m.idx[u].p.anchor != nil && InWindow(lo, m.idx[u].p) && (forall w string :: {m.idx[w]} has(m.idx, w) && ou(m.idx[w].o) == ou(o) && true && m.idx[w].p.anchor != nil && InWindow(lo, m.idx[w].p) && hexu(ppu(m.idx[w].p)) == hexu(ppu(m.idx[u].p)) ==> inst(m.idx[w].p.anchor) <= inst(m.idx[u].p.anchor)) ==> exists k string :: {selectedTrpls[k]} has(selectedTrpls, k) && selectedTrpls[k] == m.idx[u]
+//@   ensures[complete-latest-when-unpaged] result == nil && lo.MaxElements == 0 && lo.LatestAnchor ==> forall u string :: {m.idx[u]} has(m.idx, u) && ou(m.idx[u].o) == ou(o) && true && m.idx[u].p.anchor != nil && InWindow(lo, m.idx[u].p) && (forall w string :: {m.idx[w]} has(m.idx, w) && ou(m.idx[w].o) == ou(o) && true && m.idx[w].p.anchor != nil && InWindow(lo, m.idx[w].p) && hexu(ppu(m.idx[w].p)) == hexu(ppu(m.idx[u].p)) ==> inst(m.idx[w].p.anchor) <= inst(m.idx[u].p.anchor)) ==> exists j int :: {prds.#out[j]} old(prds.#len) <= j && j < prds.#len && (exists v string :: {m.idx[v]} has(m.idx, v) && tstr(m.idx[v]) == tstr(m.idx[u]) && prds.#out[j] == m.idx[v].p)
 //@   loop 0 invariant[state] m.#lock_rwmu == 1 && prds != nil && prds.#closed == 0 && prds.#len >= old(prds.#len) && ckr != nil && st != nil && fresh(st) && fresh(ckr)
 //@   loop 0 invariant[sound] forall j int :: {prds.#out[j]} old(prds.#len) <= j && j < prds.#len ==> exists u string :: {m.idx[u]} has(m.idx, u) && ou(m.idx[u].o) == ou(o) && true && InWindow(lo, m.idx[u].p) && prds.#out[j] == m.idx[u].p
 //@   loop 0 invariant[complete-so-far] old(lo.MaxElements) == 0 ==> !ckr.max && ckr.paddedPageSize <= 0 && prds.#len == old(prds.#len) + $i && (forall q int :: {strPrds[q]} 0 <= q && q < $i ==> prds.#out[old(prds.#len) + q] == st[strPrds[q]].p)
@@ -447,6 +482,13 @@ package memory
 //@   nowrite[C07] lo.FilterOptions
 //@   ensures[sound] forall j int :: {trpls.#out[j]} old(trpls.#len) <= j && j < trpls.#len ==> exists u string :: {m.idx[u]} has(m.idx, u) && su(m.idx[u].s) == su(s) && true && InWindow(lo, m.idx[u].p) && trpls.#out[j] == m.idx[u]
 //@   ensures[complete-when-unpaged-and-unfiltered] result == nil && lo.MaxElements == 0 && !lo.LatestAnchor && old(lo.FilterOptions) == nil ==> forall u string :: {m.idx[u]} has(m.idx, u) && su(m.idx[u].s) == su(s) && true && InWindow(lo, m.idx[u].p) ==> exists j int :: {trpls.#out[j]} old(trpls.#len) <= j && j < trpls.#len && (exists v string :: {m.idx[v]} has(m.idx, v) && tstr(m.idx[v]) == tstr(m.idx[u]) && trpls.#out[j] == m.idx[v])
+//@   atcall executeFilter assert[candidates-come-from-the-bucket] forall u string :: {has(memoryTriples, u)} has(memoryTriples, u) ==> has(m.idxS, sUUID) && has(m.idxS[sUUID], u)
+//@   atcall executeFilter assert[candidates-are-stored-triples] forall u string :: {has(memoryTriples, u)} has(memoryTriples, u) ==> has(m.idx, u) && memoryTriples[u] == m.idx[u]
+//@   atcall executeFilter assert[candidates-match-in-window] forall u string :: {has(memoryTriples, u)} has(memoryTriples, u) ==> su(m.idx[u].s) == su(s) && true && InWindow(lo, m.idx[u].p)
+//@   atcall executeFilter assert[matches-are-in-the-bucket] forall u string :: {m.idx[u]} has(m.idx, u) && su(m.idx[u].s) == su(s) && true ==> has(m.idxS, sUUID) && has(m.idxS[sUUID], u) && m.idxS[sUUID][u] == m.idx[u]
+//@   atcall executeFilter assert[matches-in-window-are-candidates] forall u string :: {m.idx[u]} has(m.idx, u) && su(m.idx[u].s) == su(s) && true && InWindow(lo, m.idx[u].p) ==> has(memoryTriples, u) && memoryTriples[u] == m.idx[u]
+//@   atcall SortByString assert[every-latest-match-is-selected] lo.LatestAnchor ==> forall u string :: {m.idx[u]} has(m.idx, u) && su(m.idx[u].s) == su(s) && true && m.idx[u].p.anchor != nil && InWindow(lo, m.idx[u].p) && (forall w string :: {m.idx[w]} has(m.idx, w) && su(m.idx[w].s) == su(s) && true && m.idx[w].p.anchor != nil && InWindow(lo, m.idx[w].p) && hexu(ppu(m.idx[w].p)) == hexu(ppu(m.idx[u].p)) ==> inst(m.idx[w].p.anchor) <= inst(m.idx[u].p.anchor)) ==> exists k string :: {selectedTrpls[k]} has(selectedTrpls, k) && selectedTrpls[k] == m.idx[u]
+//@   ensures[complete-latest-when-unpaged] result == nil && lo.MaxElements == 0 && lo.LatestAnchor ==> forall u string :: {m.idx[u]} has(m.idx, u) && su(m.idx[u].s) == su(s) && true && m.idx[u].p.anchor != nil && InWindow(lo, m.idx[u].p) && (forall w string :: {m.idx[w]} has(m.idx, w) && su(m.idx[w].s) == su(s) && true && m.idx[w].p.anchor != nil && InWindow(lo, m.idx[w].p) && hexu(ppu(m.idx[w].p)) == hexu(ppu(m.idx[u].p)) ==> inst(m.idx[w].p.anchor) <= inst(m.idx[u].p.anchor)) ==> exists j int :: {trpls.#out[j]} old(trpls.#len) <= j && j < trpls.#len && (exists v string :: {m.idx[v]} has(m.idx, v) && tstr(m.idx[v]) == tstr(m.idx[u]) && trpls.#out[j] == m.idx[v])
 //@   loop 0 invariant[state] m.#lock_rwmu == 1 && trpls != nil && trpls.#closed == 0 && trpls.#len >= old(trpls.#len) && ckr != nil && st != nil && fresh(st) && fresh(ckr)
 //@   loop 0 invariant[sound] forall j int :: {trpls.#out[j]} old(trpls.#len) <= j && j < trpls.#len ==> exists u string :: {m.idx[u]} has(m.idx, u) && su(m.idx[u].s) == su(s) && true && InWindow(lo, m.idx[u].p) && trpls.#out[j] == m.idx[u]
 //@   loop 0 invariant[complete-so-far] old(lo.MaxElements) == 0 ==> !ckr.max && ckr.paddedPageSize <= 0 && trpls.#len == old(trpls.#len) + $i && (forall q int :: {strTrpls[q]} 0 <= q && q < $i ==> trpls.#out[old(trpls.#len) + q] == st[strTrpls[q]])
@@ -467,6 +509,13 @@ package memory
 //@   nowrite[C07] lo.FilterOptions
 //@   ensures[sound] forall j int :: {trpls.#out[j]} old(trpls.#len) <= j && j < trpls.#len ==> exists u string :: {m.idx[u]} has(m.idx, u) && ppu(m.idx[u].p) == ppu(p) && Pmatch(p, m.idx[u].p) && InWindow(lo, m.idx[u].p) && trpls.#out[j] == m.idx[u]
 //@   ensures[complete-when-unpaged-and-unfiltered] result == nil && lo.MaxElements == 0 && !lo.LatestAnchor && old(lo.FilterOptions) == nil ==> forall u string :: {m.idx[u]} has(m.idx, u) && ppu(m.idx[u].p) == ppu(p) && Pmatch(p, m.idx[u].p) && InWindow(lo, m.idx[u].p) ==> exists j int :: {trpls.#out[j]} old(trpls.#len) <= j && j < trpls.#len && (exists v string :: {m.idx[v]} has(m.idx, v) && tstr(m.idx[v]) == tstr(m.idx[u]) && trpls.#out[j] == m.idx[v])
+//@   atcall executeFilter assert[candidates-come-from-the-bucket] forall u string :: {has(memoryTriples, u)} has(memoryTriples, u) ==> has(m.idxP, pUUID) && has(m.idxP[pUUID], u)
+//@   atcall executeFilter assert[candidates-are-stored-triples] forall u string :: {has(memoryTriples, u)} has(memoryTriples, u) ==> has(m.idx, u) && memoryTriples[u] == m.idx[u]
+//@   atcall executeFilter assert[candidates-match-in-window] forall u string :: {has(memoryTriples, u)} has(memoryTriples, u) ==> ppu(m.idx[u].p) == ppu(p) && Pmatch(p, m.idx[u].p) && InWindow(lo, m.idx[u].p)
+//@   atcall executeFilter assert[matches-are-in-the-bucket] forall u string :: {m.idx[u]} has(m.idx, u) && ppu(m.idx[u].p) == ppu(p) && Pmatch(p, m.idx[u].p) ==> has(m.idxP, pUUID) && has(m.idxP[pUUID], u) && m.idxP[pUUID][u] == m.idx[u]
+//@   atcall executeFilter assert[matches-in-window-are-candidates] forall u string :: {m.idx[u]} has(m.idx, u) && ppu(m.idx[u].p) == ppu(p) && Pmatch(p, m.idx[u].p) && InWindow(lo, m.idx[u].p) ==> has(memoryTriples, u) && memoryTriples[u] == m.idx[u]
+//@   atcall SortByString assert[every-latest-match-is-selected] lo.LatestAnchor ==> forall u string :: {m.idx[u]} has(m.idx, u) && ppu(m.idx[u].p) == ppu(p) && Pmatch(p, m.idx[u].p) && qmatch(p, m.idx[u]) && m.idx[u].p.anchor != nil && InWindow(lo, m.idx[u].p) && (forall w string :: {m.idx[w]} has(m.idx, w) && ppu(m.idx[w].p) == ppu(p) && Pmatch(p, m.idx[w].p) && qmatch(p, m.idx[w]) && m.idx[w].p.anchor != nil && InWindow(lo, m.idx[w].p) && hexu(ppu(m.idx[w].p)) == hexu(ppu(m.idx[u].p)) ==> inst(m.idx[w].p.anchor) <= inst(m.idx[u].p.anchor)) ==> exists k string :: {selectedTrpls[k]} has(selectedTrpls, k) && selectedTrpls[k] == m.idx[u]
+//@   ensures[complete-latest-when-unpaged] result == nil && lo.MaxElements == 0 && lo.LatestAnchor ==> forall u string :: {m.idx[u]} has(m.idx, u) && ppu(m.idx[u].p) == ppu(p) && Pmatch(p, m.idx[u].p) && qmatch(p, m.idx[u]) && m.idx[u].p.anchor != nil && InWindow(lo, m.idx[u].p) && (forall w string :: {m.idx[w]} has(m.idx, w) && ppu(m.idx[w].p) == ppu(p) && Pmatch(p, m.idx[w].p) && qmatch(p, m.idx[w]) && m.idx[w].p.anchor != nil && InWindow(lo, m.idx[w].p) && hexu(ppu(m.idx[w].p)) == hexu(ppu(m.idx[u].p)) ==> inst(m.idx[w].p.anchor) <= inst(m.idx[u].p.anchor)) ==> exists j int :: {trpls.#out[j]} old(trpls.#len) <= j && j < trpls.#len && (exists v string :: {m.idx[v]} has(m.idx, v) && tstr(m.idx[v]) == tstr(m.idx[u]) && trpls.#out[j] == m.idx[v])
 //@   loop 0 invariant[state] m.#lock_rwmu == 1 && trpls != nil && trpls.#closed == 0 && trpls.#len >= old(trpls.#len) && ckr != nil && st != nil && fresh(st) && fresh(ckr)
 //@   loop 0 invariant[sound] forall j int :: {trpls.#out[j]} old(trpls.#len) <= j && j < trpls.#len ==> exists u string :: {m.idx[u]} has(m.idx, u) && ppu(m.idx[u].p) == ppu(p) && Pmatch(p, m.idx[u].p) && InWindow(lo, m.idx[u].p) && trpls.#out[j] == m.idx[u]
 //@   loop 0 invariant[complete-so-far] old(lo.MaxElements) == 0 ==> !ckr.max && ckr.paddedPageSize <= 0 && trpls.#len == old(trpls.#len) + $i && (forall q int :: {strTrpls[q]} 0 <= q && q < $i ==> trpls.#out[old(trpls.#len) + q] == st[strTrpls[q]])
@@ -487,6 +536,13 @@ package memory
 //@   nowrite[C07] lo.FilterOptions
 //@   ensures[sound] forall j int :: {trpls.#out[j]} old(trpls.#len) <= j && j < trpls.#len ==> exists u string :: {m.idx[u]} has(m.idx, u) && ou(m.idx[u].o) == ou(o) && true && InWindow(lo, m.idx[u].p) && trpls.#out[j] == m.idx[u]
 //@   ensures[complete-when-unpaged-and-unfiltered] result == nil && lo.MaxElements == 0 && !lo.LatestAnchor && old(lo.FilterOptions) == nil ==> forall u string :: {m.idx[u]} has(m.idx, u) && ou(m.idx[u].o) == ou(o) && true && InWindow(lo, m.idx[u].p) ==> exists j int :: {trpls.#out[j]} old(trpls.#len) <= j && j < trpls.#len && (exists v string :: {m.idx[v]} has(m.idx, v) && tstr(m.idx[v]) == tstr(m.idx[u]) && trpls.#out[j] == m.idx[v])
+//@   atcall executeFilter assert[candidates-come-from-the-bucket] forall u string :: {has(memoryTriples, u)} has(memoryTriples, u) ==> has(m.idxO, oUUID) && has(m.idxO[oUUID], u)
+//@   atcall executeFilter assert[candidates-are-stored-triples] forall u string :: {has(memoryTriples, u)} has(memoryTriples, u) ==> has(m.idx, u) && memoryTriples[u] == m.idx[u]
+//@   atcall executeFilter assert[candidates-match-in-window] forall u string :: {has(memoryTriples, u)} has(memoryTriples, u) ==> ou(m.idx[u].o) == ou(o) && true && InWindow(lo, m.idx[u].p)
+//@   atcall executeFilter assert[matches-are-in-the-bucket] forall u string :: {m.idx[u]} has(m.idx, u) && ou(m.idx[u].o) == ou(o) && true ==> has(m.idxO, oUUID) && has(m.idxO[oUUID], u) && m.idxO[oUUID][u] == m.idx[u]
+//@   atcall executeFilter assert[matches-in-window-are-candidates] forall u string :: {m.idx[u]} has(m.idx, u) && ou(m.idx[u].o) == ou(o) && true && InWindow(lo, m.idx[u].p) ==> has(memoryTriples, u) && memoryTriples[u] == m.idx[u]
+//@   atcall SortByString assert[every-latest-match-is-selected] lo.LatestAnchor ==> forall u string :: {m.idx[u]} has(m.idx, u) && ou(m.idx[u].o) == ou(o) && true && m.idx[u].p.anchor != nil && InWindow(lo, m.idx[u].p) && (forall w string :: {m.idx[w]} has(m.idx, w) && ou(m.idx[w].o) == ou(o) && true && m.idx[w].p.anchor != nil && InWindow(lo, m.idx[w].p) && hexu(ppu(m.idx[w].p)) == hexu(ppu(m.idx[u].p)) ==> inst(m.idx[w].p.anchor) <= inst(m.idx[u].p.anchor)) ==> exists k string :: {selectedTrpls[k]} has(selectedTrpls, k) && selectedTrpls[k] == m.idx[u]
+//@   ensures[complete-latest-when-unpaged] result == nil && lo.MaxElements == 0 && lo.LatestAnchor ==> forall u string :: {m.idx[u]} has(m.idx, u) && ou(m.idx[u].o) == ou(o) && true && m.idx[u].p.anchor != nil && InWindow(lo, m.idx[u].p) && (forall w string :: {m.idx[w]} has(m.idx, w) && ou(m.idx[w].o) == ou(o) && true && m.idx[w].p.anchor != nil && InWindow(lo, m.idx[w].p) && hexu(ppu(m.idx[w].p)) == hexu(ppu(m.idx[u].p)) ==> inst(m.idx[w].p.anchor) <= inst(m.idx[u].p.anchor)) ==> exists j int :: {trpls.#out[j]} old(trpls.#len) <= j && j < trpls.#len && (exists v string :: {m.idx[v]} has(m.idx, v) && tstr(m.idx[v]) == tstr(m.idx[u]) && trpls.#out[j] == m.idx[v])
 //@   loop 0 invariant[state] m.#lock_rwmu == 1 && trpls != nil && trpls.#closed == 0 && trpls.#len >= old(trpls.#len) && ckr != nil && st != nil && fresh(st) && fresh(ckr)
 //@   loop 0 invariant[sound] forall j int :: {trpls.#out[j]} old(trpls.#len) <= j && j < trpls.#len ==> exists u string :: {m.idx[u]} has(m.idx, u) && ou(m.idx[u].o) == ou(o) && true && InWindow(lo, m.idx[u].p) && trpls.#out[j] == m.idx[u]
 //@   loop 0 invariant[complete-so-far] old(lo.MaxElements) == 0 ==> !ckr.max && ckr.paddedPageSize <= 0 && trpls.#len == old(trpls.#len) + $i && (forall q int :: {strTrpls[q]} 0 <= q && q < $i ==> trpls.#out[old(trpls.#len) + q] == st[strTrpls[q]])
@@ -507,6 +563,13 @@ package memory
 //@   nowrite[C07] lo.FilterOptions
 //@   ensures[sound] forall j int :: {trpls.#out[j]} old(trpls.#len) <= j && j < trpls.#len ==> exists u string :: {m.idx[u]} has(m.idx, u) && su(m.idx[u].s) == su(s) && ppu(m.idx[u].p) == ppu(p) && Pmatch(p, m.idx[u].p) && InWindow(lo, m.idx[u].p) && trpls.#out[j] == m.idx[u]
 //@   ensures[complete-when-unpaged-and-unfiltered] result == nil && lo.MaxElements == 0 && !lo.LatestAnchor && old(lo.FilterOptions) == nil ==> forall u string :: {m.idx[u]} has(m.idx, u) && su(m.idx[u].s) == su(s) && ppu(m.idx[u].p) == ppu(p) && Pmatch(p, m.idx[u].p) && InWindow(lo, m.idx[u].p) ==> exists j int :: {trpls.#out[j]} old(trpls.#len) <= j && j < trpls.#len && (exists v string :: {m.idx[v]} has(m.idx, v) && tstr(m.idx[v]) == tstr(m.idx[u]) && trpls.#out[j] == m.idx[v])
+//@   atcall executeFilter assert[candidates-come-from-the-bucket] forall u string :: {has(memoryTriples, u)} has(memoryTriples, u) ==> has(m.idxSP, spIdx) && has(m.idxSP[spIdx], u)
+//@   atcall executeFilter assert[candidates-are-stored-triples] forall u string :: {has(memoryTriples, u)} has(memoryTriples, u) ==> has(m.idx, u) && memoryTriples[u] == m.idx[u]
+//@   atcall executeFilter assert[candidates-match-in-window] forall u string :: {has(memoryTriples, u)} has(memoryTriples, u) ==> su(m.idx[u].s) == su(s) && ppu(m.idx[u].p) == ppu(p) && Pmatch(p, m.idx[u].p) && InWindow(lo, m.idx[u].p)
+//@   atcall executeFilter assert[matches-are-in-the-bucket] forall u string :: {m.idx[u]} has(m.idx, u) && su(m.idx[u].s) == su(s) && ppu(m.idx[u].p) == ppu(p) && Pmatch(p, m.idx[u].p) ==> has(m.idxSP, spIdx) && has(m.idxSP[spIdx], u) && m.idxSP[spIdx][u] == m.idx[u]
+//@   atcall executeFilter assert[matches-in-window-are-candidates] forall u string :: {m.idx[u]} has(m.idx, u) && su(m.idx[u].s) == su(s) && ppu(m.idx[u].p) == ppu(p) && Pmatch(p, m.idx[u].p) && InWindow(lo, m.idx[u].p) ==> has(memoryTriples, u) && memoryTriples[u] == m.idx[u]
+//@   atcall SortByString assert[every-latest-match-is-selected] lo.LatestAnchor ==> forall u string :: {m.idx[u]} has(m.idx, u) && su(m.idx[u].s) == su(s) && ppu(m.idx[u].p) == ppu(p) && Pmatch(p, m.idx[u].p) && qmatch(p, m.idx[u]) && m.idx[u].p.anchor != nil && InWindow(lo, m.idx[u].p) && (forall w string :: {m.idx[w]} has(m.idx, w) && su(m.idx[w].s) == su(s) && ppu(m.idx[w].p) == ppu(p) && Pmatch(p, m.idx[w].p) && qmatch(p, m.idx[w]) && m.idx[w].p.anchor != nil && InWindow(lo, m.idx[w].p) && hexu(ppu(m.idx[w].p)) == hexu(ppu(m.idx[u].p)) ==> inst(m.idx[w].p.anchor) <= inst(m.idx[u].p.anchor)) ==> exists k string :: {selectedTrpls[k]} has(selectedTrpls, k) && selectedTrpls[k] == m.idx[u]
+//@   ensures[complete-latest-when-unpaged] result == nil && lo.MaxElements == 0 && lo.LatestAnchor ==> forall u string :: {m.idx[u]} has(m.idx, u) && su(m.idx[u].s) == su(s) && ppu(m.idx[u].p) == ppu(p) && Pmatch(p, m.idx[u].p) && qmatch(p, m.idx[u]) && m.idx[u].p.anchor != nil && InWindow(lo, m.idx[u].p) && (forall w string :: {m.idx[w]} has(m.idx, w) && su(m.idx[w].s) == su(s) && ppu(m.idx[w].p) == ppu(p) && Pmatch(p, m.idx[w].p) && qmatch(p, m.idx[w]) && m.idx[w].p.anchor != nil && InWindow(lo, m.idx[w].p) && hexu(ppu(m.idx[w].p)) == hexu(ppu(m.idx[u].p)) ==> inst(m.idx[w].p.anchor) <= inst(m.idx[u].p.anchor)) ==> exists j int :: {trpls.#out[j]} old(trpls.#len) <= j && j < trpls.#len && (exists v string :: {m.idx[v]} has(m.idx, v) && tstr(m.idx[v]) == tstr(m.idx[u]) && trpls.#out[j] == m.idx[v])
 //@   loop 0 invariant[state] m.#lock_rwmu == 1 && trpls != nil && trpls.#closed == 0 && trpls.#len >= old(trpls.#len) && ckr != nil && st != nil && fresh(st) && fresh(ckr)
 //@   loop 0 invariant[sound] forall j int :: {trpls.#out[j]} old(trpls.#len) <= j && j < trpls.#len ==> exists u string :: {m.idx[u]} has(m.idx, u) && su(m.idx[u].s) == su(s) && ppu(m.idx[u].p) == ppu(p) && Pmatch(p, m.idx[u].p) && InWindow(lo, m.idx[u].p) && trpls.#out[j] == m.idx[u]
 //@   loop 0 invariant[complete-so-far] old(lo.MaxElements) == 0 ==> !ckr.max && ckr.paddedPageSize <= 0 && trpls.#len == old(trpls.#len) + $i && (forall q int :: {strTrpls[q]} 0 <= q && q < $i ==> trpls.#out[old(trpls.#len) + q] == st[strTrpls[q]])
@@ -527,6 +590,13 @@ package memory
 //@   nowrite[C07] lo.FilterOptions
 //@   ensures[sound] forall j int :: {trpls.#out[j]} old(trpls.#len) <= j && j < trpls.#len ==> exists u string :: {m.idx[u]} has(m.idx, u) && ppu(m.idx[u].p) == ppu(p) && ou(m.idx[u].o) == ou(o) && Pmatch(p, m.idx[u].p) && InWindow(lo, m.idx[u].p) && trpls.#out[j] == m.idx[u]
 //@   ensures[complete-when-unpaged-and-unfiltered] result == nil && lo.MaxElements == 0 && !lo.LatestAnchor && old(lo.FilterOptions) == nil ==> forall u string :: {m.idx[u]} has(m.idx, u) && ppu(m.idx[u].p) == ppu(p) && ou(m.idx[u].o) == ou(o) && Pmatch(p, m.idx[u].p) && InWindow(lo, m.idx[u].p) ==> exists j int :: {trpls.#out[j]} old(trpls.#len) <= j && j < trpls.#len && (exists v string :: {m.idx[v]} has(m.idx, v) && tstr(m.idx[v]) == tstr(m.idx[u]) && trpls.#out[j] == m.idx[v])
+//@   atcall executeFilter assert[candidates-come-from-the-bucket] forall u string :: {has(memoryTriples, u)} has(memoryTriples, u) ==> has(m.idxPO, poIdx) && has(m.idxPO[poIdx], u)
+//@   atcall executeFilter assert[candidates-are-stored-triples] forall u string :: {has(memoryTriples, u)} has(memoryTriples, u) ==> has(m.idx, u) && memoryTriples[u] == m.idx[u]
+//@   atcall executeFilter assert[candidates-match-in-window] forall u string :: {has(memoryTriples, u)} has(memoryTriples, u) ==> ppu(m.idx[u].p) == ppu(p) && ou(m.idx[u].o) == ou(o) && Pmatch(p, m.idx[u].p) && InWindow(lo, m.idx[u].p)
+//@   atcall executeFilter assert[matches-are-in-the-bucket] forall u string :: {m.idx[u]} has(m.idx, u) && ppu(m.idx[u].p) == ppu(p) && ou(m.idx[u].o) == ou(o) && Pmatch(p, m.idx[u].p) ==> has(m.idxPO, poIdx) && has(m.idxPO[poIdx], u) && m.idxPO[poIdx][u] == m.idx[u]
+//@   atcall executeFilter assert[matches-in-window-are-candidates] forall u string :: {m.idx[u]} has(m.idx, u) && ppu(m.idx[u].p) == ppu(p) && ou(m.idx[u].o) == ou(o) && Pmatch(p, m.idx[u].p) && InWindow(lo, m.idx[u].p) ==> has(memoryTriples, u) && memoryTriples[u] == m.idx[u]
+//@   atcall SortByString assert[every-latest-match-is-selected] lo.LatestAnchor ==> forall u string :: {m.idx[u]} has(m.idx, u) && ppu(m.idx[u].p) == ppu(p) && ou(m.idx[u].o) == ou(o) && Pmatch(p, m.idx[u].p) && qmatch(p, m.idx[u]) && m.idx[u].p.anchor != nil && InWindow(lo, m.idx[u].p) && (forall w string :: {m.idx[w]} has(m.idx, w) && ppu(m.idx[w].p) == ppu(p) && ou(m.idx[w].o) == ou(o) && Pmatch(p, m.idx[w].p) && qmatch(p, m.idx[w]) && m.idx[w].p.anchor != nil && InWindow(lo, m.idx[w].p) && hexu(ppu(m.idx[w].p)) == hexu(ppu(m.idx[u].p)) ==> inst(m.idx[w].p.anchor) <= inst(m.idx[u].p.anchor)) ==> exists k string :: {selectedTrpls[k]} has(selectedTrpls, k) && selectedTrpls[k] == m.idx[u]
+//@   ensures[complete-latest-when-unpaged] result == nil && lo.MaxElements == 0 && lo.LatestAnchor ==> forall u string :: {m.idx[u]} has(m.idx, u) && ppu(m.idx[u].p) == ppu(p) && ou(m.idx[u].o) == ou(o) && Pmatch(p, m.idx[u].p) && qmatch(p, m.idx[u]) && m.idx[u].p.anchor != nil && InWindow(lo, m.idx[u].p) && (forall w string :: {m.idx[w]} has(m.idx, w) && ppu(m.idx[w].p) == ppu(p) && ou(m.idx[w].o) == ou(o) && Pmatch(p, m.idx[w].p) && qmatch(p, m.idx[w]) && m.idx[w].p.anchor != nil && InWindow(lo, m.idx[w].p) && hexu(ppu(m.idx[w].p)) == hexu(ppu(m.idx[u].p)) ==> inst(m.idx[w].p.anchor) <= inst(m.idx[u].p.anchor)) ==> exists j int :: {trpls.#out[j]} old(trpls.#len) <= j && j < trpls.#len && (exists v string :: {m.idx[v]} has(m.idx, v) && tstr(m.idx[v]) == tstr(m.idx[u]) && trpls.#out[j] == m.idx[v])
 //@   loop 0 invariant[state] m.#lock_rwmu == 1 && trpls != nil && trpls.#closed == 0 && trpls.#len >= old(trpls.#len) && ckr != nil && st != nil && fresh(st) && fresh(ckr)
 //@   loop 0 invariant[sound] forall j int :: {trpls.#out[j]} old(trpls.#len) <= j && j < trpls.#len ==> exists u string :: {m.idx[u]} has(m.idx, u) && ppu(m.idx[u].p) == ppu(p) && ou(m.idx[u].o) == ou(o) && Pmatch(p, m.idx[u].p) && InWindow(lo, m.idx[u].p) && trpls.#out[j] == m.idx[u]
 //@   loop 0 invariant[complete-so-far] old(lo.MaxElements) == 0 ==> !ckr.max && ckr.paddedPageSize <= 0 && trpls.#len == old(trpls.#len) + $i && (forall q int :: {strTrpls[q]} 0 <= q && q < $i ==> trpls.#out[old(trpls.#len) + q] == st[strTrpls[q]])
@@ -547,6 +617,11 @@ package memory
 //@   nowrite[C07] lo.FilterOptions
 //@   ensures[sound] forall j int :: {trpls.#out[j]} old(trpls.#len) <= j && j < trpls.#len ==> exists u string :: {m.idx[u]} has(m.idx, u) && true && true && InWindow(lo, m.idx[u].p) && trpls.#out[j] == m.idx[u]
 //@   ensures[complete-when-unpaged-and-unfiltered] result == nil && lo.MaxElements == 0 && !lo.LatestAnchor && old(lo.FilterOptions) == nil ==> forall u string :: {m.idx[u]} has(m.idx, u) && true && true && InWindow(lo, m.idx[u].p) ==> exists j int :: {trpls.#out[j]} old(trpls.#len) <= j && j < trpls.#len && (exists v string :: {m.idx[v]} has(m.idx, v) && tstr(m.idx[v]) == tstr(m.idx[u]) && trpls.#out[j] == m.idx[v])
+//@   atcall executeFilter assert[candidates-are-stored-triples] forall u string :: {has(memoryTriples, u)} has(memoryTriples, u) ==> has(m.idx, u) && memoryTriples[u] == m.idx[u]
+//@   atcall executeFilter assert[candidates-match-in-window] forall u string :: {has(memoryTriples, u)} has(memoryTriples, u) ==> true && true && InWindow(lo, m.idx[u].p)
+//@   atcall executeFilter assert[matches-in-window-are-candidates] forall u string :: {m.idx[u]} has(m.idx, u) && true && true && InWindow(lo, m.idx[u].p) ==> has(memoryTriples, u) && memoryTriples[u] == m.idx[u]
+//@   atcall SortByString assert[every-latest-match-is-selected] lo.LatestAnchor ==> forall u string :: {m.idx[u]} has(m.idx, u) && true && true && m.idx[u].p.anchor != nil && InWindow(lo, m.idx[u].p) && (forall w string :: {m.idx[w]} has(m.idx, w) && true && true && m.idx[w].p.anchor != nil && InWindow(lo, m.idx[w].p) && hexu(ppu(m.idx[w].p)) == hexu(ppu(m.idx[u].p)) ==> inst(m.idx[w].p.anchor) <= inst(m.idx[u].p.anchor)) ==> exists k string :: {selectedTrpls[k]} has(selectedTrpls, k) && selectedTrpls[k] == m.idx[u]
+//@   ensures[complete-latest-when-unpaged] result == nil && lo.MaxElements == 0 && lo.LatestAnchor ==> forall u string :: {m.idx[u]} has(m.idx, u) && true && true && m.idx[u].p.anchor != nil && InWindow(lo, m.idx[u].p) && (forall w string :: {m.idx[w]} has(m.idx, w) && true && true && m.idx[w].p.anchor != nil && InWindow(lo, m.idx[w].p) && hexu(ppu(m.idx[w].p)) == hexu(ppu(m.idx[u].p)) ==> inst(m.idx[w].p.anchor) <= inst(m.idx[u].p.anchor)) ==> exists j int :: {trpls.#out[j]} old(trpls.#len) <= j && j < trpls.#len && (exists v string :: {m.idx[v]} has(m.idx, v) && tstr(m.idx[v]) == tstr(m.idx[u]) && trpls.#out[j] == m.idx[v])
 //@   loop 0 invariant[state] m.#lock_rwmu == 1 && trpls != nil && trpls.#closed == 0 && trpls.#len >= old(trpls.#len) && ckr != nil && st != nil && fresh(st) && fresh(ckr)
 //@   loop 0 invariant[sound] forall j int :: {trpls.#out[j]} old(trpls.#len) <= j && j < trpls.#len ==> exists u string :: {m.idx[u]} has(m.idx, u) && true && true && InWindow(lo, m.idx[u].p) && trpls.#out[j] == m.idx[u]
 //@   loop 0 invariant[complete-so-far] old(lo.MaxElements) == 0 ==> !ckr.max && ckr.paddedPageSize <= 0 && trpls.#len == old(trpls.#len) + $i && (forall q int :: {strTrpls[q]} 0 <= q && q < $i ==> trpls.#out[old(trpls.#len) + q] == st[strTrpls[q]])
